@@ -3,7 +3,7 @@ NOTES = ("Solver-based checking of the real code: see DESIGN.md (section 8 descr
          "0 held within the stated bounds (KNOWN-FINDING lines for open entries of known_findings.json) / 1 VIOLATION with a "
          "replay that reproduces on the real code / 3 inconclusive (solver unknown, budget, non-reproducing model) — never "
          "reported as success. Runs against a scratch copy (VERIF_REPO != /repo, see tools/with_patch.sh) do not touch "
-         "/verif/evidence. 65 independently seeded changes are under seeded/ (all detected by the quick tier).")
+         "/verif/evidence. 73 independently seeded changes are under seeded/ (all detected by the quick tier).")
 
 REAL = "floats encoded as exact reals (binary64 rounding outside the claim); "
 
